@@ -73,6 +73,14 @@ CHECKS = {
          "Each generated history is executed twice in lockstep from the same start, once as is and once with the saved file-state table deleted before every build, under a clock where every write is distinct and under a coarse clock where all files written in one invocation share an mtime; after every build verdicts and all workspace file bytes must agree (and equal the from-scratch result).",
          "Self-differential: the table-less run is ruler itself with less information. Time always advances between user actions and invocations.",
          "property-based testing: differential (with vs without the mtime table) over generated histories under two clock models", "2 C18"),
+ "C10": ("exploration",
+         "Generated workspaces are brought to a successful full build by a random history, cleaned (with and without goal) and rebuilt (with and without goal): after the clean no in-scope target exists and each one's bytes sit in the cache under the harness-computed name; after the build every cleaned in-scope target is back byte-identical with its exec bit, C01 holds, and no command ran when the cleaned contents were pairwise different. The same oracle is applied on the real file system through the built binary with shell commands.",
+         "Distinct clock in memory; on the real file system user actions are spaced so that mtimes differ at ruler's microsecond resolution. One open known finding (exec bit among byte-identical targets) is excluded by signature and counted.",
+         "property-based testing: generated clean/build scenarios against the reference model, in memory and end-to-end on the real file system", "2 C10"),
+ "C17": ("exploration",
+         "A generated rule gets an undeclared input feeding a chosen subset of its targets; after a successful build the input is changed and re-execution is forced (verified in the call log); the build must fail with exactly one Contradiction naming exactly the differing targets, leave the rule's history (read back through ruler's own reader) unchanged, run no descendant and leave unrelated rules alone; with the input restored and re-execution forced again the build must succeed.",
+         "Declared sources are byte-identical across the builds; all 2^k subsets of affected targets including the empty one are generated.",
+         "property-based testing: metamorphic scenario (perturb an undeclared input, force re-execution) with exact-error oracle", "2 C17"),
 }
 
 NOT_YET = {}
